@@ -37,8 +37,8 @@ type VerifRoot struct {
 	Nil          bool // the collection has been closed
 	Addr         uintptr
 	Refs         int64
-	MarkAddr     uintptr // address of this version's reclaimMark sentinel
-	ChainAddr    uintptr // chainedRootNodeLoc
+	MarkAddr     uintptr    // address of this version's reclaimMark sentinel
+	ChainAddr    uintptr    // chainedRootNodeLoc
 	Chain        *VerifRoot // copy of the chained version record (without its tree), nil if none
 	Superseded   bool
 	ReclaimLater [3]uintptr
